@@ -156,6 +156,21 @@ def _mirsym():
     add("C06.c/merge_aggregate", "C06", "mirsym", Q, "cross-partition SUM merge is exact or fails with Overflow (same obligation as C04.d/merge_aggregate)",
         ["engine::operators::merge_aggregate::merge_aggregate"], bounds="see C04.d/merge_aggregate", spec=sm.MergeAggregateSpec())
 
+    from .specs import colbuf as sc
+    cbfns = ["mem_store::column_buffer::ColumnBuffer::{default,null,push_ints,push_floats,push_nulls,push_present,init_present}",
+             "mem_store::column_buffer::{IntColBuffer,FloatColBuffer}::push", "bitvec::{BitVec::is_set,BitVecMut::set}"]
+    add("C01.b/colbuf_nullmap", "C01", "mirsym", Q,
+        "ColumnBuffer append sequences (ints / floats / nulls, with and without incoming null maps, starting empty or as null(k)): length, one slot per row, value per row, NULL exactly where no value was supplied, int+float degrades to float",
+        cbfns, bounds="quick: start in {default, null(1), null(8)}, <= 2 appends from {ints(1), ints(2,map), nulls(1), nulls(7), floats(1), floats(2,map)} + 4 three-step sequences; thorough: + null(7|9|17), <= 3 appends incl. 9-row maps; all values and null-map bytes symbolic",
+        spec=sc.ColBufSpec())
+    add("C07.a/colbuf_compaction", "C07", "mirsym", Q,
+        "the append sequences InnerLocustDB::compact performs on a fresh ColumnBuffer (one push per partition: non-nullable, nullable with its null map, all-NULL): NULL rows of every part stay NULL, values stay values",
+        cbfns, bounds="quick: 1-2 parts of 1-2 rows from {ints, ints+map, nulls, floats+map, floats}; thorough: up to 3 parts incl. 9-row parts; values and null maps symbolic",
+        spec=sc.ColBufC07())
+    add("C13.a/colbuf_padding", "C13", "mirsym", Q,
+        "a column first seen after k rows is NULL for the first k rows; a column not mentioned by a batch is NULL for that batch (push_nulls padding)",
+        cbfns, bounds="k in {1,8,9} (quick) / {1,7,8,9,16,17} (thorough); 6 continuation sequences each", spec=sc.ColBufC13())
+
 
 _mirsym()
 
